@@ -1051,6 +1051,7 @@ Plan gen_fs_plan(const std::string &prop, Rng &rng, long long sub, const std::st
     return p;
   }
   unsigned macros = rng.chance(1, 2) ? (unsigned)rng.below(16) : 0;
+  if (rng.chance(1, 5)) macros |= MF_NONLR;   // a definition the compiler must reject (its error position is checked like any other)
   p.proj = valid_project(rng, thorough, macros, rng.chance(1, 10));
   if (thorough && mode < 50) {
     // systematic single-fault sweep over this workload: sub enumerates (kind, position)
